@@ -45,6 +45,7 @@ import GM.Props.ConvertE2ENT
 import GM.Props.ConvertE2ENP
 import GM.Props.ConvertL
 import GM.Props.ConvertE2EAll
+import GM.Props.ConvertXE2E
 
 namespace GM.Props.C01
 open GM
@@ -597,5 +598,94 @@ theorem inline_loop_l_total : type_of% @GM.Props.ConvertL.inline_loop_l_total :=
 
 /-- (re-export of `GM.Props.ConvertE2EAll.no_renderer_side_panic`) `no_renderer_side_panic` — the statement `GM.Props.ConvertE2E.NoRendererSidePanic` (kept there as a `def`) is a theorem -/
 theorem no_renderer_side_panic : type_of% @GM.Props.ConvertE2EAll.no_renderer_side_panic := @GM.Props.ConvertE2EAll.no_renderer_side_panic
+
+/-- (re-export of `GM.Props.ConvertXE2E.convertl_total_no_table`) **`convertl_total_no_table`** (C01 end to end, 8 member sets): with Table off — Strikethrough, TaskList, Linkify in any
+    combination — `convertL` answers HTML for every source, class assignment and option set. -/
+theorem convertl_total_no_table : type_of% @GM.Props.ConvertXE2E.convertl_total_no_table := @GM.Props.ConvertXE2E.convertl_total_no_table
+
+/-- (re-export of `GM.Props.ConvertXE2E.convertx_total`) **`convertx_total`** (goal 1): the member sets of {Strikethrough, TaskList} — `convertX` answers HTML for every byte string -/
+theorem convertx_total : type_of% @GM.Props.ConvertXE2E.convertx_total := @GM.Props.ConvertXE2E.convertx_total
+
+/-- (re-export of `GM.Props.ConvertXE2E.convertx_never_errs`) no outcome other than HTML -/
+theorem convertx_never_errs : type_of% @GM.Props.ConvertXE2E.convertx_never_errs := @GM.Props.ConvertXE2E.convertx_never_errs
+
+/-- (re-export of `GM.Props.ConvertXE2E.convertl_total_linkify`) **`convertl_total_linkify`** (goal 3, without Table): Linkify next to any subset of {Strikethrough, TaskList} -/
+theorem convertl_total_linkify : type_of% @GM.Props.ConvertXE2E.convertl_total_linkify := @GM.Props.ConvertXE2E.convertl_total_linkify
+
+/-- (re-export of `GM.Props.ConvertXE2E.convertl_never_errs_no_table`) see `GM.Props.ConvertXE2E.convertl_never_errs_no_table` -/
+theorem convertl_never_errs_no_table : type_of% @GM.Props.ConvertXE2E.convertl_never_errs_no_table := @GM.Props.ConvertXE2E.convertl_never_errs_no_table
+
+/-- (re-export of `GM.Props.ConvertXE2E.inline_phase_total_segments_resolve`) the inline phase of a block under ANY of the 16 member sets, on lines that pass the run-time check: it answers, and every
+    segment of its tree lies inside the source, is not inverted and carries no padding (so every `Segment.Value` answers) -/
+theorem ext_inline_phase_total_segments_resolve : type_of% @GM.Props.ConvertXE2E.inline_phase_total_segments_resolve := @GM.Props.ConvertXE2E.inline_phase_total_segments_resolve
+
+/-- (re-export of `GM.Props.ConvertXE2E.inline_phase_code_spans_hold_text`) every CodeSpan of the tree the inline phase answers holds Text nodes only (what renderCodeSpan's `c.(*ast.Text)` needs),
+    all 16 member sets, every source and lines -/
+theorem ext_inline_phase_code_spans_hold_text : type_of% @GM.Props.ConvertXE2E.inline_phase_code_spans_hold_text := @GM.Props.ConvertXE2E.inline_phase_code_spans_hold_text
+
+/-- (re-export of `GM.Props.ConvertXE2E.inline_phase_segments_unpadded`) the segments of that tree are padding-free whenever the lines are (no reader refinement needed) -/
+theorem ext_inline_phase_segments_unpadded : type_of% @GM.Props.ConvertXE2E.inline_phase_segments_unpadded := @GM.Props.ConvertXE2E.inline_phase_segments_unpadded
+
+/-- (re-export of `GM.Props.ConvertXE2E.render_no_panic_of_shape`) no node renderer panics on a tree without attributes whose Headings have level ≤ 6 and whose CodeSpans hold Text —
+    whatever the renderer configuration and member set -/
+theorem render_no_panic_of_shape : type_of% @GM.Props.ConvertXE2E.render_no_panic_of_shape := @GM.Props.ConvertXE2E.render_no_panic_of_shape
+
+/-- (re-export of `GM.Props.ConvertXE2E.convertl_total_dash_free`) **`convertl_total_dash_free`**: ALL 16 member sets (Table and `extension.GFM` among them) on a source without '-' — the table
+    paragraph transformer never finds a delimiter row (`convertl_conservative_table`), so the conversion is the one without
+    Table, which is total -/
+theorem convertl_total_dash_free : type_of% @GM.Props.ConvertXE2E.convertl_total_dash_free := @GM.Props.ConvertXE2E.convertl_total_dash_free
+
+/-- (re-export of `GM.Props.ConvertXE2E.convertgfm_total_dash_free`) see `GM.Props.ConvertXE2E.convertgfm_total_dash_free` -/
+theorem convertgfm_total_dash_free : type_of% @GM.Props.ConvertXE2E.convertgfm_total_dash_free := @GM.Props.ConvertXE2E.convertgfm_total_dash_free
+
+/-- (re-export of `GM.Props.ConvertXE2E.convertx_total_dash_free`) see `GM.Props.ConvertXE2E.convertx_total_dash_free` -/
+theorem convertx_total_dash_free : type_of% @GM.Props.ConvertXE2E.convertx_total_dash_free := @GM.Props.ConvertXE2E.convertx_total_dash_free
+
+/-- (re-export of `GM.Props.ConvertXE2E.table_transformer_outside_contract`) **`table_transformer_outside_contract`** (goal 2, negative): package tnopanic's driver theorem takes any transformer list with
+    `PTsSpec src e` — every call ends in `PTPost` (the paragraph keeps a SUFFIX of its lines and nothing else changes, or it is
+    replaced by ONE fresh TextBlock) or answers `e`. The table paragraph transformer is OUTSIDE that contract on every call
+    that builds a table: from any state, if `GM.Table.transform` finds a table in the paragraph's lines and `transformPT`
+    answers a state, that state is not `PTPost` of the initial one (it holds at least two more nodes: Table, TableHeader; the
+    paragraph keeps a PREFIX of its lines, or is removed). So block-phase totality with Table needs a third alternative in
+    `PTPost` and the driver proof (GM.Proof.BlocksTNP*) re-run for it. -/
+theorem table_transformer_outside_contract : type_of% @GM.Props.ConvertXE2E.table_transformer_outside_contract := @GM.Props.ConvertXE2E.table_transformer_outside_contract
+
+/-- (re-export of `GM.Props.ConvertXE2E.contract_adds_at_most_one_node`) the two counts behind it -/
+theorem contract_adds_at_most_one_node : type_of% @GM.Props.ConvertXE2E.contract_adds_at_most_one_node := @GM.Props.ConvertXE2E.contract_adds_at_most_one_node
+
+/-- (re-export of `GM.Props.ConvertXE2E.build_table_adds_two_nodes`) see `GM.Props.ConvertXE2E.build_table_adds_two_nodes` -/
+theorem build_table_adds_two_nodes : type_of% @GM.Props.ConvertXE2E.build_table_adds_two_nodes := @GM.Props.ConvertXE2E.build_table_adds_two_nodes
+
+/-- (re-export of `GM.Props.ConvertXE2E.escaped_pipe_walk_keeps_code_spans`) tableASTTransformer's walk below a cell keeps "every CodeSpan holds Text nodes only", for ANY list of recorded positions -/
+theorem escaped_pipe_walk_keeps_code_spans : type_of% @GM.Props.ConvertXE2E.escaped_pipe_walk_keeps_code_spans := @GM.Props.ConvertXE2E.escaped_pipe_walk_keeps_code_spans
+
+/-- (re-export of `GM.Props.ConvertXE2E.escaped_pipe_walk_segments_resolve`) … and keeps every segment in range when the positions are ascending (they are recorded in document order): the pieces
+    `[start, pos)` and `[pos+1, stop)` of a Text that holds an escaped pipe are never inverted; so every `Segment.Value` of a
+    cell's decoded children answers -/
+theorem escaped_pipe_walk_segments_resolve : type_of% @GM.Props.ConvertXE2E.escaped_pipe_walk_segments_resolve := @GM.Props.ConvertXE2E.escaped_pipe_walk_segments_resolve
+
+/-- (re-export of `GM.Props.ConvertXE2E.convertl_total_of_block_phase_x`) **`convertl_total_of_block_phase_x`** (the interface for Table / `extension.GFM`): the tree phases and the renderer side of
+    ALL 16 member sets are total on such a store — the inline phase of every inline-bearing node (table cells among them)
+    answers, the escaped-pipe transformer keeps segments in range and CodeSpans on Text, every `Segment.Value` answers, no node
+    renderer panics. For the 8 member sets without Table the hypothesis is a theorem (`convertl_total_no_table`). -/
+theorem convertl_total_of_block_phase_x : type_of% @GM.Props.ConvertXE2E.convertl_total_of_block_phase_x := @GM.Props.ConvertXE2E.convertl_total_of_block_phase_x
+
+/-- (re-export of `GM.Props.ConvertXE2E.convertl_total_of_store_facts`) the same for one source and member set, in `NodeTotX` form (with the frame facts as hypotheses) -/
+theorem convertl_total_of_store_facts : type_of% @GM.Props.ConvertXE2E.convertl_total_of_store_facts := @GM.Props.ConvertXE2E.convertl_total_of_store_facts
+
+/-- (re-export of `GM.Props.ConvertXE2E.table_transformer_keeps_frame_invariants`) **`table_transformer_keeps_frame_invariants`**: the table paragraph transformer keeps EVERY frame invariant of package e2e
+    (GM.E2E.Frame) — it allocates `thematicBreak` records without info segment / closure line and rewrites only `lines`,
+    `children`, `parent`. Instances, for the store the block phase of ANY member set returns: Heading levels are 1..6, node 0 is
+    the Document, a fenced block's info segment and an HTML block's closure line are in range. -/
+theorem table_transformer_keeps_frame_invariants : type_of% @GM.Props.ConvertXE2E.table_transformer_keeps_frame_invariants := @GM.Props.ConvertXE2E.table_transformer_keeps_frame_invariants
+
+/-- (re-export of `GM.Props.ConvertXE2E.block_phase_x_heading_levels`) see `GM.Props.ConvertXE2E.block_phase_x_heading_levels` -/
+theorem block_phase_x_heading_levels : type_of% @GM.Props.ConvertXE2E.block_phase_x_heading_levels := @GM.Props.ConvertXE2E.block_phase_x_heading_levels
+
+/-- (re-export of `GM.Props.ConvertXE2E.block_phase_x_root_is_document`) see `GM.Props.ConvertXE2E.block_phase_x_root_is_document` -/
+theorem block_phase_x_root_is_document : type_of% @GM.Props.ConvertXE2E.block_phase_x_root_is_document := @GM.Props.ConvertXE2E.block_phase_x_root_is_document
+
+/-- (re-export of `GM.Props.ConvertXE2E.block_phase_x_info_closure_in_range`) see `GM.Props.ConvertXE2E.block_phase_x_info_closure_in_range` -/
+theorem block_phase_x_info_closure_in_range : type_of% @GM.Props.ConvertXE2E.block_phase_x_info_closure_in_range := @GM.Props.ConvertXE2E.block_phase_x_info_closure_in_range
 
 end GM.Props.C01
